@@ -64,6 +64,11 @@ CHECKS = [
         "NOT decided here: IEEE-754 arithmetic results (+ - * / at f32/f64), float_to_string, correctly-rounded decimal->binary conversion and the finite-after-narrowing test beyond three hand-picked Float32 literals - numeric accuracy is outside what a TLA+ model decides at reasonable cost. Random wide operands are not generated (boundary sets only).",
         "TLA+ bit-vector semantics validated against mathematics by TLC at small widths; TLC-generated exhaustive 8-bit and boundary tables replayed on the real runtime and checker",
         "DESIGN.md §4 C05, §5"),
+    chk("C06", "model_checking",
+        "spec/ZyHost.tla specifies the text operations on strings as sequences of scalar values (length, byte length, append, split_at, get, split_once, eq with none-branches exactly on out-of-range positions), parse_int, char_from_codepoint (defined exactly on Unicode scalar values, encoded length by range), UTF-8 well-formedness as the standard automaton, and the handle table as a state machine (monotone handle numbers, closed stays closed with error kind Closed, permanent standard handles, NotFound through the error continuation); TLC checks the text laws and handle invariants and prints 8260 text rows, 1555 parse rows, 17 code points, 2640 byte buffers and every behaviour of 4 (thorough 5) handle operations. Each row is a caller program typed at the declared Builtin signature, analysed and run by the real tool chain (byte buffers through stdin, files in a scratch directory) with results, selected continuation, error kinds and final file contents compared. The role table dumped from the implementation (126 roles: arity, host name, round trip, ABI classifier) is validated by TLC (spec/ZyHostTable.tla: arity = number of arrows, returns/selects/runs shape, distinct host names). Every one-site textual mutation of a declared classifier in a scratch copy of lib/std (277; quick: 6 per file) must be rejected.",
+        "Float roles, random_int, arg_list and the legacy stdin roles are only covered by the table validation; real process streams are replaced by in-memory streams; unwritable paths are not exercised; the native runtime is out of scope.",
+        "TLA+ contract models (text, UTF-8 automaton, handle table) model checked by TLC; spec->code replay through generated caller programs; code->spec TLC validation of the dumped role table; classifier mutation",
+        "DESIGN.md §4 C06"),
 ]
 
 PENDING_REASON = "check not built yet (planned, see DESIGN.md)"
